@@ -1,9 +1,10 @@
 """C09 - all ways of calling an async function agree, for every kind of callable.
 
-PRODX: the full finite product  decorator x binding x argument pattern x body x calling convention (x failing body
-x two-decorator stacks in the thorough tier) is generated programmatically; every cell builds fresh functions/classes,
-decorates them with the real library, calls them through one convention and is compared with a plain-Python twin of the
-body (same signature, no asynq) that is called directly.
+PRODX: the full finite product  decorator x binding x argument pattern x body x calling convention (x wrappers stacked on
+sync_fn pairs x access histories of two bindings on one class hierarchy; x failing body x two-wrapper stacks in the
+thorough tier) is generated programmatically; every cell builds fresh functions/classes, decorates them with the real
+library, calls them through one convention per access and is compared with a plain-Python twin of the body (same
+signature, no asynq) that is called directly.
 """
 import time
 
@@ -13,15 +14,25 @@ BUILDS = ("pure", "compiled")
 TECHNIQUE = "exhaustive enumeration of a finite configuration product on the real decorators vs a direct plain-Python reference"
 EXPLANATION = ("every cell of the decorator x binding x arguments x body x convention product is executed on freshly generated "
                "callables and compared with a direct call of an undecorated twin of the body")
-RULE = ("cell = (decorator, binding, argument pattern, body kind, calling convention[, failing body][, stack of two wrappers]); "
+RULE = ("cell = (decorator[, wrappers stacked on it], binding[, second binding], argument pattern, body kind, calling convention"
+        "[, failing body]); "
         "decorators: asynq(), asynq(pure=True), async_proxy(), asynq(sync_fn=), async_proxy(sync_fn=), make_async_decorator, "
         "deduplicate(), aretry, alru_cache, acached_per_instance (the last three only on the bindings they are written for) and an "
         "undecorated control; bindings: function, method via instance / via class with explicit self / via subclass instance, "
-        "classmethod via class / instance / subclass, staticmethod via class / instance; signature (a, b=dB, *, k=dK) called "
+        "method via an instance whose truth value is False, classmethod via class / instance / subclass, staticmethod via class / "
+        "instance / falsy instance; signature (a, b=dB, *, k=dK) called "
         "all-positional, all-keyword, default omitted, with the keyword-only argument, mixed; bodies: plain return, generator "
         "yielding a ConstFuture, generator blocking on a DebugBatchItem; conventions: f(...), f.asynq(...).value(), yield "
         "f.asynq(...) from a task, async_call.asynq(f, ...).value(), async_call(f, ...), yield async_call.asynq(f, ...), "
-        "get_async_fn(f)(...), get_async_fn(f, wrap_if_none=True)(...), get_async_or_sync_fn(f)(...). Every cell is executed "
+        "get_async_fn(f)(...), get_async_fn(f, wrap_if_none=True)(...), get_async_or_sync_fn(f)(...). Wrappers over sync_fn pairs: "
+        "deduplicate / aretry / alru_cache / acached_per_instance / make_async_decorator stacked on asynq(sync_fn=) and on "
+        "async_proxy(sync_fn=), on every binding the stack can be built for (both tiers). Access histories (both tiers): for every "
+        "decorator, body and argument pattern ONE generated class hierarchy is accessed through every ordered pair of bindings of "
+        "the same descriptor kind (method: instance, a second instance, class with explicit self, subclass instance, falsy "
+        "instance; classmethod: class, instance, subclass, subclass instance; staticmethod: class, instance, subclass, falsy "
+        "instance; function twice), including the same binding twice; the second access uses different argument values, each access "
+        "is judged by the full oracle; quick uses the same convention for both accesses, thorough every convention pair and also "
+        "the stacks over sync_fn pairs. Thorough adds failing bodies and all 25 two-wrapper stacks over asynq(). Every cell is executed "
         "(no sampling) on fresh objects in both builds. evals = cells executed (both builds); states = distinct cells (counted "
         "once, in the pure build); transitions = calls made into the library (calls of decorated objects, async_call and the "
         "classification helpers); non-trivial = cells whose binding binds an instance or class object (method and classmethod "
@@ -36,7 +47,13 @@ ASSUMPTIONS = [
     "the '.asynq' conventions call the pure function itself and has_async_fn() must then answer False",
     "aretry is used as aretry(Exception, max_tries=2, sleep=0) so that failing bodies cost no wall-clock time; a failing body "
     "under aretry is expected to run max_tries times",
-    "every cell builds fresh functions, classes and caches, so cache hits and task de-duplication never hide a body run",
+    "every cell builds fresh functions, classes and caches, so cache hits and task de-duplication never hide a body run; the "
+    "second access of an access history uses different argument values for the same reason",
+    "which body a SYNCHRONOUS call of a wrapper stacked on a sync_fn pair runs follows from what the wrapper is: deduplicate is "
+    "an AsyncDecorator whose synchronous call is the synchronous call of the wrapped function, so sync_fn must run (and the "
+    "async body must not); aretry, alru_cache, acached_per_instance and make_async_decorator build a NEW async function that "
+    "awaits inner.asynq(...), which has no sync_fn of its own, so its synchronous call runs the async body. All other "
+    "conventions run the async body in every stack",
 ]
 
 A, B, K, DB, DK = "a1", "b2", "k3", "dB", "dK"
@@ -56,9 +73,16 @@ ARGPATS = {
 BODIES = ["plain", "gen", "batch"]
 CONVS = ["sync", "asynq_value", "yield", "acall_asynq", "acall_sync", "acall_yield",
          "get_async_fn", "get_async_fn_wrap", "get_async_or_sync_fn"]
-FUNCTION_STYLE = {"aretry": ("func", "m_inst", "m_cls", "m_sub", "m_falsy"), "alru": ("func", "m_inst", "m_cls", "m_sub", "m_falsy"),
-                  "acpi": ("m_inst", "m_cls", "m_sub", "m_falsy")}
-BOUND = ("m_inst", "m_cls", "m_sub", "m_falsy", "cm_cls", "cm_inst", "cm_sub")
+# function-style wrappers are written for functions and instance methods (every m_* binding, including m_falsy)
+FUNCTION_STYLE = {"aretry": ("func", "m_"), "alru": ("func", "m_"), "acpi": ("m_",)}
+SYNC_BASES = ["asynq_sync", "proxy_sync"]
+# bindings that only occur inside access histories (a second instance, subclass instance / subclass for class- and staticmethods)
+HISTORY_BINDINGS = {
+    "func": ["func"],
+    "m": ["m_inst", "m_inst2", "m_cls", "m_sub", "m_falsy"],
+    "cm": ["cm_cls", "cm_inst", "cm_sub", "cm_subinst"],
+    "sm": ["sm_cls", "sm_inst", "sm_sub", "sm_falsy"],
+}
 
 SKIPPED = {
     "asynq(pure=True, sync_fn=...)": "assert at decoration time: 'sync_fn is not supported for pure async functions'",
@@ -70,6 +94,11 @@ SKIPPED = {
     "undecorated control with generator bodies": "a bare generator function is not a callable of the property's alphabet",
     "deduplicate over make_async_decorator (thorough stacks)": "deduplicate() reads fun.task_cls, which AsyncWrapper does not have "
                                                                 "(AttributeError at decoration time)",
+    "deduplicate over asynq(sync_fn=<classmethod object>) on classmethod bindings": "the classmethod object given as sync_fn is "
+        "only re-bound by AsyncAndSyncPairDecorator.__get__, which deduplicate's binder bypasses (synchronous call: TypeError "
+        "'classmethod' object is not callable on the unchanged tree); outside the statement's quantifier",
+    "deduplicate over async_proxy(...)": "deduplicate() needs the wrapped function's task class and async_proxy has none "
+        "(synchronous call: TypeError 'NoneType' object is not callable on the unchanged tree); outside the statement's quantifier",
 }
 
 
@@ -146,9 +175,9 @@ def ref_free(a, b=DB, *, k=DK):
     return None, (a, b, k)
 
 
-def reference(cell, bound, pre, args, kwargs):
+def reference(cell, binding, bound, pre, args, kwargs):
     """expected (bound object, normalised args, outcome) of one call"""
-    if has_bound(cell["binding"]):
+    if has_bound(binding):
         first = pre if pre else (bound,)
         rb, norm = ref_bound(*(first + args), **kwargs)
     else:
@@ -165,7 +194,24 @@ def reference(cell, bound, pre, args, kwargs):
 
 
 def has_bound(binding):
-    return binding in BOUND
+    return binding.startswith("m_") or binding.startswith("cm_")
+
+
+def kind_of(binding):
+    return binding.split("_")[0]
+
+
+def fs_ok(w, binding):
+    """may the function-style wrapper w be used on this binding"""
+    return any(binding == p or (p.endswith("_") and binding.startswith(p)) for p in FUNCTION_STYLE[w])
+
+
+def arg_values(argpat, shift):
+    """(args, kwargs) of a pattern; the second access of a history uses primed values"""
+    args, kwargs = ARGPATS[argpat]
+    if not shift:
+        return tuple(args), dict(kwargs)
+    return tuple(x + "'" for x in args), {n: x + "'" for n, x in kwargs.items()}
 
 
 def stack_of(cell):
@@ -176,7 +222,14 @@ def stack_of(cell):
 
 
 def base_of(cell):
+    if cell.get("base"):
+        return cell["base"]
     return "asynq" if (cell.get("stack") or cell["deco"] in WRAPPERS) else cell["deco"]
+
+
+def sync_call_runs_sync_fn(cell):
+    """does a synchronous call of this (possibly stacked) callable run sync_fn (see ASSUMPTIONS)"""
+    return base_of(cell) in SYNC_BASES and all(w == "dedup" for w in stack_of(cell))
 
 
 # ----------------------------------------------------------------------------------------------------------------
@@ -326,44 +379,65 @@ class Access(object):
     __slots__ = ("f", "pre", "bound", "keep")
 
 
+class Hierarchy(object):
+    """one generated class hierarchy (or bare function) carrying the decorated object"""
+    __slots__ = ("obj", "cls", "sub", "falsy", "inst", "inst2", "subinst", "finst", "names")
+
+
 def build(cell, log):
-    """fresh generated callable for one cell: returns Access(f, pre-args, expected bound object)"""
+    """fresh generated callable for one cell, installed in a fresh class hierarchy unless it is a plain function"""
     obj = decorate(cell, log)
-    binding = cell["binding"]
+    h = Hierarchy()
+    h.obj = obj
+    h.names = []
+    if cell["binding"] == "func":
+        return h
+    h.cls = type("C09Cls", (object,), {"m": obj})
+    h.sub = type("C09Sub", (h.cls,), {})
+    h.falsy = type("C09Empty", (h.cls,), {"__len__": lambda self: 0})
+    h.inst = h.cls()
+    h.inst2 = h.cls()
+    h.subinst = h.sub()
+    h.finst = h.falsy()
+    h.names = [(h.cls, "the class"), (h.sub, "the subclass"), (h.inst, "the instance"), (h.inst2, "the second instance"),
+               (h.subinst, "the subclass instance"), (h.falsy, "the falsy class"), (h.finst, "the falsy instance")]
+    return h
+
+
+def access(h, binding):
+    """one attribute access as a caller spells it: Access(f, explicit leading args, expected bound object)"""
     acc = Access()
     acc.pre = ()
     acc.bound = None
+    acc.keep = h.names
     if binding == "func":
-        acc.f = obj
-        acc.keep = (obj,)
-        return acc
-    cls = type("C09Cls", (object,), {"m": obj})
-    sub = type("C09Sub", (cls,), {})
-    falsy = type("C09Empty", (cls,), {"__len__": lambda self: 0})
-    inst = cls()
-    subinst = sub()
-    finst = falsy()
-    acc.keep = (cls, sub, inst, subinst, falsy, finst)
-    if binding == "m_falsy":
-        acc.f, acc.bound = finst.m, finst
+        acc.f = h.obj
+    elif binding == "m_falsy":
+        acc.f, acc.bound = h.finst.m, h.finst
     elif binding == "sm_falsy":
-        acc.f = finst.m
+        acc.f = h.finst.m
     elif binding == "m_inst":
-        acc.f, acc.bound = inst.m, inst
+        acc.f, acc.bound = h.inst.m, h.inst
+    elif binding == "m_inst2":
+        acc.f, acc.bound = h.inst2.m, h.inst2
     elif binding == "m_cls":
-        acc.f, acc.bound, acc.pre = cls.m, inst, (inst,)
+        acc.f, acc.bound, acc.pre = h.cls.m, h.inst, (h.inst,)
     elif binding == "m_sub":
-        acc.f, acc.bound = subinst.m, subinst
+        acc.f, acc.bound = h.subinst.m, h.subinst
     elif binding == "cm_cls":
-        acc.f, acc.bound = cls.m, cls
+        acc.f, acc.bound = h.cls.m, h.cls
     elif binding == "cm_inst":
-        acc.f, acc.bound = inst.m, cls
+        acc.f, acc.bound = h.inst.m, h.cls
     elif binding == "cm_sub":
-        acc.f, acc.bound = sub.m, sub
+        acc.f, acc.bound = h.sub.m, h.sub
+    elif binding == "cm_subinst":
+        acc.f, acc.bound = h.subinst.m, h.sub
     elif binding == "sm_cls":
-        acc.f = cls.m
+        acc.f = h.cls.m
     elif binding == "sm_inst":
-        acc.f = inst.m
+        acc.f = h.inst.m
+    elif binding == "sm_sub":
+        acc.f = h.sub.m
     else:
         raise ValueError(binding)
     return acc
@@ -374,11 +448,18 @@ def build(cell, log):
 
 
 def skip_reason(cell):
-    deco, binding, body = cell["deco"], cell["binding"], cell["body"]
-    for w in stack_of(cell):
-        if w in FUNCTION_STYLE and binding not in FUNCTION_STYLE[w]:
-            return "function-style wrapper on a binding it is not written for"
+    deco, body = cell["deco"], cell["body"]
     st = stack_of(cell)
+    for binding in (cell["binding"], cell.get("binding2")):
+        if binding is None:
+            continue
+        for w in st:
+            if w in FUNCTION_STYLE and not fs_ok(w, binding):
+                return "function-style wrapper on a binding it is not written for"
+        if "dedup" in st and base_of(cell) == "asynq_sync" and binding.startswith("cm_"):
+            return "deduplicate over asynq(sync_fn=<classmethod object>) on a classmethod binding"
+    if "dedup" in st and base_of(cell) in ("proxy", "proxy_sync"):
+        return "deduplicate over async_proxy"
     if len(st) == 2 and st[0] == "mad" and st[1] == "dedup":
         return "deduplicate over make_async_decorator"
     if deco == "plain" and body != "plain":
@@ -393,13 +474,23 @@ def features(cell):
         f.append("fail")
     if cell.get("stack"):
         f.append("stack:" + "+".join(cell["stack"]))
+    if cell.get("base"):
+        f.append("base:" + cell["base"])
+    if cell.get("binding2"):
+        f.append("bind2:" + cell["binding2"])
+        f.append("conv2:" + (cell.get("conv2") or cell["conv"]))
     return f
 
 
 def describe(cell):
-    d = cell["deco"] if not cell.get("stack") else "asynq>" + ">".join(cell["stack"])
-    return "%s / %s / args %s / body %s%s / %s" % (d, cell["binding"], cell["argpat"], cell["body"],
-                                                   " raising" if cell.get("fail") else "", cell["conv"])
+    d = cell["deco"] if not cell.get("stack") else base_of(cell) + ">" + ">".join(cell["stack"])
+    b, c = cell["binding"], cell["conv"]
+    if cell.get("binding2"):
+        b += " then " + cell["binding2"]
+        if cell.get("conv2") and cell["conv2"] != c:
+            c += " then " + cell["conv2"]
+    return "%s / %s / args %s / body %s%s / %s" % (d, b, cell["argpat"], cell["body"],
+                                                   " raising" if cell.get("fail") else "", c)
 
 
 def _outcome(thunk):
@@ -413,7 +504,6 @@ def _outcome(thunk):
 
 def run_cell(cell, stats=None):
     """executes one cell on fresh objects; returns a list of (sig, msg)"""
-    L = lib()
     reset_lib()
     viol = []
     calls = [0]
@@ -423,9 +513,9 @@ def run_cell(cell, stats=None):
 
     log = []
     try:
-        acc = build(cell, log)
+        h = build(cell, log)
     except Exception as e:
-        if cell.get("stack"):
+        if cell.get("stack") and not cell.get("base"):
             # three-deep stacks are an extension beyond the statement's quantifier: a stack the library refuses to
             # build (loudly, at decoration time) is recorded in the evidence, not judged
             if stats is not None:
@@ -434,17 +524,40 @@ def run_cell(cell, stats=None):
             return None
         v("decoration-failed", "building the callable raised %s: %s" % (type(e).__name__, str(e)[:200]))
         return viol
-    f, conv = acc.f, cell["conv"]
-    args, kwargs = ARGPATS[cell["argpat"]]
-    args = acc.pre + tuple(args)
-    kwargs = dict(kwargs)
-    exp_bound, exp_norm, exp_out = reference(cell, acc.bound, acc.pre, tuple(ARGPATS[cell["argpat"]][0]), kwargs)
+    steps = [(cell["binding"], cell["conv"], 0)]
+    if cell.get("binding2"):
+        steps.append((cell["binding2"], cell.get("conv2") or cell["conv"], 1))
+    for i, (binding, conv, shift) in enumerate(steps):
+        del log[:]
+        if len(steps) == 1:
+            vi = v
+        else:
+            def vi(sig, msg, _p="access %d (%s, %s): " % (i + 1, binding, conv)):
+                v(sig, _p + msg)
+        try:
+            acc = access(h, binding)
+        except Exception as e:
+            vi("access-failed", "looking the attribute up raised %s: %s" % (type(e).__name__, str(e)[:200]))
+            continue
+        _judge_access(cell, acc, binding, conv, shift, log, vi, calls)
+    if stats is not None:
+        stats["calls"] = stats.get("calls", 0) + calls[0]
+    return viol
+
+
+def _judge_access(cell, acc, binding, conv, shift, log, v, calls):
+    """one call through one convention on one access, judged against the reference twin"""
+    L = lib()
+    f = acc.f
+    pargs, kwargs = arg_values(cell["argpat"], shift)
+    args = acc.pre + pargs
+    exp_bound, exp_norm, exp_out = reference(cell, binding, acc.bound, acc.pre, pargs, kwargs)
     base = base_of(cell)
     stacked = stack_of(cell)
     is_control = base == "plain"
     # how the object can actually be called (harness knowledge used only to pick the spelling of a convention)
     pure_kind = base == "pure" and not stacked
-    has_sync = base in ("asynq_sync", "proxy_sync") and not stacked
+    has_sync = sync_call_runs_sync_fn(cell)
     exp_tag = "body"
     exp_runs = 1
     if cell.get("fail") and "aretry" in stacked:
@@ -626,19 +739,16 @@ def run_cell(cell, stats=None):
                 v("wrong-bound", "body received bound object %s, expected %s" % (_short(e[1], acc), _short(exp_bound, acc)))
             if e[2] != exp_norm:
                 v("wrong-args", "body received (a, b, k) = %r, reference %r" % (_safe(e[2], acc), exp_norm))
-    if stats is not None:
-        stats["calls"] = stats.get("calls", 0) + calls[0]
-    return viol
 
 
 def _short(o, acc):
     if o is None:
         return "None"
-    if acc.keep and len(acc.keep) == 4:
-        names = ("the class", "the subclass", "the instance", "the subclass instance")
-        for n, k in zip(names, acc.keep):
-            if o is k:
-                return n
+    for k, n in acc.keep or ():
+        if o is k:
+            return n
+    if isinstance(o, type):
+        return "<class %s>" % o.__name__
     return "<%s>" % type(o).__name__ if not isinstance(o, str) else repr(o)
 
 
@@ -656,32 +766,70 @@ def stacks(tier):
     return [(a, b) for a in WRAPPERS for b in WRAPPERS]
 
 
-def groups(tier):
-    """(deco, stack, fail) groups in simplest-first order"""
-    out = [(d, None, False) for d in DECOS]
-    if tier == "thorough":
-        out += [(d, None, True) for d in DECOS]
-        out += [("stack", s, False) for s in stacks(tier)]
-        out += [("stack", s, True) for s in stacks(tier)]
+def sync_stacks():
+    """one wrapper over a sync_fn pair (both tiers)"""
+    return [(base, w) for base in SYNC_BASES for w in WRAPPERS]
+
+
+def history_pairs():
+    """every ordered pair of bindings of one descriptor kind (including the same binding twice)"""
+    out = []
+    for kind in ("func", "m", "cm", "sm"):
+        bs = HISTORY_BINDINGS[kind]
+        out += [(a, b) for a in bs for b in bs]
     return out
 
 
-def cells_of(deco, stack, fail, binding):
+def groups(tier):
+    """(deco, base, stack, fail) groups in simplest-first order"""
+    out = [(d, None, None, False) for d in DECOS]
+    out += [("stack", base, (w,), False) for base, w in sync_stacks()]
+    if tier == "thorough":
+        out += [(d, None, None, True) for d in DECOS]
+        out += [("stack", base, (w,), True) for base, w in sync_stacks()]
+        out += [("stack", None, s, False) for s in stacks(tier)]
+        out += [("stack", None, s, True) for s in stacks(tier)]
+    return out
+
+
+def history_groups(tier):
+    out = [(d, None, None, False) for d in DECOS]
+    if tier == "thorough":
+        out += [("stack", base, (w,), False) for base, w in sync_stacks()]
+        out += [(d, None, None, True) for d in DECOS]
+    return out
+
+
+def cells_of(job):
+    convs2 = job.get("convs2") or [None]
     for argpat in ARGPATS:
         for body in BODIES:
             for conv in CONVS:
-                c = {"deco": deco, "binding": binding, "argpat": argpat, "body": body, "conv": conv}
-                if fail:
-                    c["fail"] = True
-                if stack:
-                    c["stack"] = list(stack)
-                yield c
+                for conv2 in convs2:
+                    c = {"deco": job["deco"], "binding": job["binding"], "argpat": argpat, "body": body, "conv": conv}
+                    if job.get("fail"):
+                        c["fail"] = True
+                    if job.get("stack"):
+                        c["stack"] = list(job["stack"])
+                    if job.get("base"):
+                        c["base"] = job["base"]
+                    if job.get("binding2"):
+                        c["binding2"] = job["binding2"]
+                        if conv2 and conv2 != conv:
+                            c["conv2"] = conv2
+                    yield c
 
 
 def jobs(tier, seed):
-    for deco, stack, fail in groups(tier):
+    for deco, base, stack, fail in groups(tier):
         for binding in BINDINGS:
-            yield {"deco": deco, "stack": list(stack) if stack else None, "fail": fail, "binding": binding}
+            yield {"deco": deco, "base": base, "stack": list(stack) if stack else None, "fail": fail, "binding": binding}
+    for deco, base, stack, fail in history_groups(tier):
+        for b1, b2 in history_pairs():
+            j = {"deco": deco, "base": base, "stack": list(stack) if stack else None, "fail": fail, "binding": b1, "binding2": b2}
+            if tier == "thorough":
+                j["convs2"] = CONVS
+            yield j
 
 
 def run(job, env):
@@ -691,7 +839,7 @@ def run(job, env):
     stats = {}
     first_build = env["build"] == BUILDS[0]
     i = 0
-    for cell in cells_of(job["deco"], job["stack"], job["fail"], job["binding"]):
+    for cell in cells_of(job):
         i += 1
         if i % 32 == 0:
             hb[0] = time.time()
@@ -710,7 +858,12 @@ def run(job, env):
             out["states"] += 1
         if has_bound(cell["binding"]):
             out["nontrivial"] += 1
-        key = "cells:" + ("stack" if cell.get("stack") else cell["deco"])
+        if cell.get("binding2"):
+            key = "cells:access history"
+        elif cell.get("base"):
+            key = "cells:wrapper over sync_fn pair"
+        else:
+            key = "cells:" + ("stack" if cell.get("stack") else cell["deco"])
         cnt[key] = cnt.get(key, 0) + 1
         if cell.get("fail"):
             cnt["cells with failing body"] = cnt.get("cells with failing body", 0) + 1
@@ -739,6 +892,10 @@ def finish(acc, tier):
         "stacks the library refuses to build (TypeError/AttributeError at decoration time; recorded, not judged)": rejected,
         "decorators": DECOS, "bindings": BINDINGS, "argument patterns": {k: repr(v) for k, v in ARGPATS.items()},
         "bodies": BODIES, "conventions": CONVS,
+        "wrappers over sync_fn pairs": ["%s over %s" % (w, base) for base, w in sync_stacks()],
+        "access histories (ordered pairs of bindings on one class hierarchy)": ["%s then %s" % p for p in history_pairs()],
+        "access histories: decorators": [g[0] if not g[1] else "%s over %s" % (g[2][0], g[1]) for g in history_groups(tier) if not g[3]],
+        "access histories: conventions": "every (first, second) convention pair" if tier == "thorough" else "same convention for both accesses",
         "failing bodies": tier == "thorough",
         "stacks of two wrappers over asynq()": ["%s over %s" % (b, a) for a, b in stacks(tier)] or "thorough tier only",
         "skipped (unsupported by documentation / assert-guarded / outside the quantifier)": SKIPPED,
